@@ -5,6 +5,7 @@ open Lean Molgri.Drv
 namespace Molgri.Drv.C12
 
 /-- ops: `msm` {xs: [nat|null], n, tau, noncorr} ↦ dense matrix of "num/den";
+         `msm_sparse` (same arguments) ↦ list of [i, j, "num/den"] at the support positions (for large n);
          `windows` {xs, tau, step} ↦ list of pairs. -/
 def handle (op : String) (j : Json) : R Json := do
   match op with
@@ -16,6 +17,14 @@ def handle (op : String) (j : Json) : R Json := do
     if τ = 0 then throw "ValueError"
     if xs.any (fun x => match x with | some v => decide (v ≥ n) | none => false) then throw "IndexError"
     pure (listJ (listJ ratJ) (Msm.transitionDense xs n τ nc))
+  | "msm_sparse" =>
+    let xs ← asList (asOpt asNat) (← getField j "xs")
+    let n ← asNat (← getField j "n")
+    let τ ← asNat (← getField j "tau")
+    let nc ← asBool (← getField j "noncorr")
+    if τ = 0 then throw "ValueError"
+    if xs.any (fun x => match x with | some v => decide (v ≥ n) | none => false) then throw "IndexError"
+    pure (listJ (fun (e : Nat × Nat × Rat) => Json.arr #[natJ e.1, natJ e.2.1, ratJ e.2.2]) (Msm.transitionSparse xs n τ nc))
   | "windows" =>
     let xs ← asList (asOpt asNat) (← getField j "xs")
     let τ ← asNat (← getField j "tau")
